@@ -177,9 +177,10 @@ class Assign:
             remaining_path = self._orig_path.from_t()[pae.part_idx + 1:]
             # T / Spec keys of the part being created are read from
             # this target, not from the fresh containers
-            keys = [(o, a, arg_val(target, a, scope) if o == '[' else a)
+            keys = [(o, a, arg_val(target, a, scope) if o in '[P' else a)
                     for o, a in remaining_path.items()]
-            remaining_path = Path(*[a if o == 'P' else _t_child(T, o, a if v is a else Val(v))
+            remaining_path = Path(*[(a if v is a else Val(v)) if o == 'P' else
+                                    _t_child(T, o, a if v is a else Val(v))
                                     for o, a, v in keys])
             # the value is already evaluated: the nested Assign takes it as it is
             val = scope[glom](self.missing(), Assign(remaining_path, Val(val), missing=self.missing), scope)
@@ -188,7 +189,7 @@ class Assign:
             path = self._orig_path[:pae.part_idx]
             dest = scope[glom](dest_target, path, scope)
 
-        if op == '[':
+        if op in '[P':
             # a T / Spec key is evaluated against the target, as when reading
             arg = arg_val(target, arg, scope)
 
@@ -334,7 +335,7 @@ class Delete:
             if not self.ignore_missing:
                 raise
         else:
-            if op == '[':
+            if op in '[P':
                 # a T / Spec key is evaluated against the target, as when reading
                 arg = arg_val(target, arg, scope)
             _apply_for_each(lambda dest: self._del_one(dest, op, arg, scope), path, dest)
